@@ -31,7 +31,7 @@ class Coll(Term):
 
 class Event:
     __slots__ = ("kind", "op", "target", "opts", "line", "file", "failed",
-                 "guards", "depth", "via", "args", "text", "in_comp", "env", "ncond", "whole", "held")
+                 "guards", "depth", "via", "args", "text", "in_comp", "env", "ncond", "whole", "held", "sofar")
 
     def __init__(self, kind, op=None, target=None, opts=None, line=0, file="",
                  guards=(), depth=0, via=(), args=(), text="", in_comp=False):
@@ -52,6 +52,7 @@ class Event:
         self.ncond = 0
         self.whole = False
         self.held = ()
+        self.sofar = False      # inside an iteration over exactly the elements consulted so far (a prefix ending at the current one)
 
     def copy(self):
         e = Event(self.kind, self.op, self.target, self.opts, self.line,
@@ -62,6 +63,7 @@ class Event:
         e.ncond = self.ncond
         e.whole = self.whole
         e.held = self.held
+        e.sofar = self.sofar
         return e
 
     def key(self):
@@ -229,6 +231,7 @@ class Frame:
         e.env = dict(p.env) if self.guards else None
         e.ncond = len(p.conds)
         e.whole = self.ctx.whole > 0
+        e.sofar = getattr(self.ctx, "sofar", 0) > 0
         e.held = tuple(self.held) + p.locks
         p.events.append(e)
         return e
@@ -370,6 +373,10 @@ class Frame:
             return self.do_try(st, p)
         if hasattr(ast, "Match") and isinstance(st, ast.Match):
             return self.do_match(st, p)
+        if isinstance(st, ast.With) and len(st.items) == 1 and isinstance(st.items[0].context_expr, ast.Call):
+            r_ = self.splice_contextmanager(st, p)
+            if r_ is not None:
+                return r_
         if isinstance(st, (ast.With, ast.AsyncWith)):
             cur = [p]
             keys = []
@@ -498,6 +505,112 @@ class Frame:
             return [p]
         self.ctx.note(f"unsupported statement {type(st).__name__} in {self.fname}")
         return [p]
+
+    def splice_contextmanager(self, st: ast.With, p: Path) -> Optional[List[Path]]:
+        """``with _cm(args): BODY`` where ``_cm`` is a generator of this module decorated with
+        ``contextlib.contextmanager`` and yields exactly once: by the definition of that decorator the block runs
+        where the ``yield`` stands — inside whatever ``try`` surrounds it.  The generator's body is executed here
+        with its own names renamed apart and the ``yield`` replaced by BODY."""
+        import copy
+        call = st.items[0].context_expr
+        f = call.func
+        fn = None
+        selfbind = None
+        if isinstance(f, ast.Name) and f.id not in p.env:
+            r = self.repo.resolve_name(self.module, f.id)
+            if r and r[0] == "func" and r[1].module is self.module:
+                fn = r[1].node
+        elif isinstance(f, ast.Attribute) and isinstance(f.value, ast.Name) and self.cls is not None and p.env.get(f.value.id) is self.selfterm and self.selfterm is not None:
+            r = self.cls.find_method(f.attr)
+            if r is not None and r[0].module is self.module:
+                fn = r[1]
+                selfbind = f.value.id
+        if fn is None or not any(ast.unparse(d).split(".")[-1] == "contextmanager" for d in fn.decorator_list):
+            return None
+        yields = [x for x in _walk_own(fn) if isinstance(x, (ast.Yield, ast.YieldFrom))]
+        ystmts = [x for x in _walk_own(fn) if isinstance(x, ast.Expr) and isinstance(x.value, ast.Yield)]
+        if len(yields) != 1 or len(ystmts) != 1 or any(isinstance(k, ast.Starred) for k in call.args) or any(k.arg is None for k in call.keywords):
+            return None
+        n_ = self.ctx.__dict__.setdefault("synth_n", 0)
+        self.ctx.synth_n = n_ + 1
+        sfx = f"$cm{n_}"
+        a = fn.args
+        params = [x.arg for x in a.posonlyargs + a.args + a.kwonlyargs]
+        local = set(params)
+        for x in _walk_own(fn):
+            if isinstance(x, ast.Name) and isinstance(x.ctx, ast.Store):
+                local.add(x.id)
+            elif isinstance(x, ast.ExceptHandler) and x.name:
+                local.add(x.name)
+        body = copy.deepcopy(fn.body)
+        ywrap = [x for b in body for x in ast.walk(b) if isinstance(x, ast.Expr) and isinstance(x.value, ast.Yield)]
+        if len(ywrap) != 1:
+            return None
+        mark = ywrap[0]
+        yielded = mark.value.value
+
+        class Ren(ast.NodeTransformer):
+            def visit_Name(self_, node):
+                if node.id in local:
+                    node.id = node.id + sfx
+                return node
+
+            def visit_ExceptHandler(self_, node):
+                if node.name in local:
+                    node.name = node.name + sfx
+                self_.generic_visit(node)
+                return node
+
+            def visit_Lambda(self_, node):
+                return node
+
+            def visit_FunctionDef(self_, node):
+                return node
+        for i_, b in enumerate(body):
+            body[i_] = Ren().visit(b)
+        # the block stands where the yield stood
+        repl: List[ast.stmt] = []
+        if st.items[0].optional_vars is not None:
+            val = yielded if yielded is not None else ast.Constant(value=None)
+            asg = ast.Assign(targets=[st.items[0].optional_vars], value=val)
+            ast.copy_location(asg, st)
+            ast.fix_missing_locations(asg)
+            repl.append(asg)
+        repl.extend(st.body)
+
+        def put(stmts):
+            for i_, x in enumerate(stmts):
+                if x is mark:
+                    stmts[i_:i_ + 1] = repl
+                    return True
+                for fld in ("body", "orelse", "finalbody"):
+                    sub = getattr(x, fld, None)
+                    if isinstance(sub, list) and put(sub):
+                        return True
+                for h in getattr(x, "handlers", []) or []:
+                    if put(h.body):
+                        return True
+            return False
+        if not put(body):
+            return None
+        # bind the parameters
+        out: List[Path] = []
+        for q, pos, kw in self.call_args(call, p):
+            if q.status != "live":
+                out.append(q)
+                continue
+            bound = self.bind_params(fn, selfbind is not None, pos, kw, self.module)
+            if selfbind is not None and params:
+                bound[params[0]] = self.selfterm
+            for k, v in bound.items():
+                q.env[k + sfx] = v
+            self.ev(q, "enter", text=fn.name, args=tuple(v for v in bound.values() if isinstance(v, Term)), line=st.lineno,
+                    target=Sym("args", tuple(Sym("kw:" + k, (v,)) for k, v in bound.items() if isinstance(v, Term))))
+            for r in self.block(body, [q]):
+                for k in [k for k in r.env if k.endswith(sfx)]:
+                    r.env.pop(k, None)
+                out.append(r)
+        return out
 
     def assign(self, tg, t: Term, p: Path, st):
         if isinstance(tg, ast.Name):
@@ -714,6 +827,12 @@ class Frame:
         c = Child(attr)
         if self.cls is not None:
             c.kind = self.attr_kind(self.cls, attr)
+            for kc in self.cls.mro():
+                if attr in kc.annotations:
+                    a0 = ast.unparse(kc.annotations[attr]).split("[")[0].split(".")[-1]
+                    if a0 in ("Dict", "Mapping", "MutableMapping", "OrderedDict", "dict", "MappingProxyType"):
+                        c.mapping = True     # iterating the attribute itself yields its keys
+                    break
         return c
 
     @staticmethod
@@ -730,6 +849,8 @@ class Frame:
                 k, pol, changed = "cmp:In(" + k[len("cmp:NotIn("):], not pol, True
             elif k.startswith("cmp:NotEq("):
                 k, pol, changed = "cmp:Eq(" + k[len("cmp:NotEq("):], not pol, True
+            elif k.startswith("call:bool(") and k.endswith(")") and len(Frame.split_args(k)) == 1:
+                k, changed = k[len("call:bool("):-1], True      # as a test, bool(x) is x
         return k, pol
 
     @staticmethod
@@ -1254,10 +1375,10 @@ class Frame:
                 owner, fn = r
                 decos = [ast.unparse(d) for d in fn.decorator_list]
                 if "property" in decos:
-                    return self.inline(owner.module, owner, fn, self.selfterm, self.selfattrs, {}, p, node)
+                    return self.inline(owner.module, self.cls, fn, self.selfterm, self.selfattrs, {}, p, node)
                 if "staticmethod" in decos:
                     return [(p, Fn("func", (owner, None, None, owner.module), fn))]
-                return [(p, Fn("method", (owner, self.selfterm, self.selfattrs, owner.module), fn))]
+                return [(p, Fn("method", (self.cls, self.selfterm, self.selfattrs, owner.module), fn))]
         if attr == "__class__":
             return [(p, Sym("classof", (self.selfterm,)))]
         if self.selfattrs is not None:
@@ -1275,8 +1396,8 @@ class Frame:
                 owner, fn = r
                 decos = [ast.unparse(d) for d in fn.decorator_list]
                 if "property" in decos:
-                    return self.inline(owner.module, owner, fn, t, t.attrs, {}, p, node)
-                return [(p, Fn("method", (owner, t, t.attrs, owner.module), fn))]
+                    return self.inline(owner.module, t.cls, fn, t, t.attrs, {}, p, node)
+                return [(p, Fn("method", (t.cls, t, t.attrs, owner.module), fn))]
             if attr in t.attrs:
                 return [(p, t.attrs[attr])]
             return [(p, Opaque(f"{t.cls.name}.{attr}"))]
@@ -1379,10 +1500,15 @@ class Frame:
         for q, (t, idx) in [(q, ts) for q, ts in self.seq([e.value, e.slice], p)]:
             if isinstance(e.slice, ast.Slice) and isinstance(t, (Child, Coll, Seq)):
                 full = e.slice.lower is None and e.slice.upper is None and e.slice.step is None
+                prefix = None
+                if e.slice.lower is None and e.slice.step is None and e.slice.upper is not None:
+                    r_ = self.expr(e.slice.upper, q.fork())
+                    prefix = r_[0][1] if len(r_) == 1 else None     # xs[:n]: the first n elements
                 if not full and isinstance(t, Coll):
                     t2 = Coll(t.elem, t.keyterm)
                     t2.kind = getattr(t, "kind", "other")
                     t2.partial = True      # a proper slice: iterating it does not visit every element
+                    t2.prefix = prefix
                     t = t2
                 elif not full and isinstance(t, Child):
                     t2 = Child(t.path)
@@ -1390,6 +1516,7 @@ class Frame:
                         if hasattr(t, a_):
                             setattr(t2, a_, getattr(t, a_))
                     t2.partial = True
+                    t2.prefix = prefix
                     t = t2
                 out.append((q, t))
             elif isinstance(t, Child):
@@ -1443,6 +1570,18 @@ class Frame:
         return out
 
     def e_Compare(self, e, p):
+        if len(e.ops) == 1 and isinstance(e.ops[0], (ast.Is, ast.IsNot)):
+            # getattr(x, 'n', S) is S  (S a sentinel nothing else can be)  is  not hasattr(x, 'n')
+            for a, b in ((e.left, e.comparators[0]), (e.comparators[0], e.left)):
+                if isinstance(a, ast.Call) and isinstance(a.func, ast.Name) and a.func.id == "getattr" and len(a.args) == 3 and not a.keywords \
+                        and isinstance(b, ast.Name) and isinstance(a.args[2], ast.Name) and a.args[2].id == b.id and b.id not in p.env:
+                    r = self.repo.resolve_name(self.module, b.id)
+                    if r and r[0] == "var" and isinstance(r[1], ast.Call) and ast.unparse(r[1]) == "object()":
+                        has = ast.Call(func=ast.Name(id="hasattr", ctx=ast.Load()), args=[a.args[0], a.args[1]], keywords=[])
+                        test = ast.UnaryOp(op=ast.Not(), operand=has) if isinstance(e.ops[0], ast.Is) else has
+                        ast.copy_location(test, e)
+                        ast.fix_missing_locations(test)
+                        return self.expr(test, p)
         return [(q, Sym("cmp:" + ",".join(type(o).__name__ for o in e.ops), tuple(ts)))
                 for q, ts in self.seq([e.left] + e.comparators, p)]
 
@@ -1607,6 +1746,7 @@ class Frame:
         self.in_comp += 1
         try:
             results: List[Tuple[Path, List[Term]]] = []
+            src_of_comp: List[Term] = []
 
             def gen(idx: int, q: Path, acc: List[Term]) -> List[Tuple[Path, List[Term]]]:
                 """Run generators idx.. on path q sequentially over all
@@ -1628,14 +1768,22 @@ class Frame:
                         out_.append((q2, acc))
                         continue
                     cur = [(q2, acc)]
+                    if idx == 0 and len(e.generators) == 1:
+                        src_of_comp.append(it)
                     comp_whole = not isinstance(it, Seq) and not getattr(it, "partial", False)
+                    pre_ = getattr(it, "prefix", None)
+                    comp_sofar = getattr(it, "partial", False) and pre_ is not None and pre_.key() == "binop:Add(position,Const(1))"
                     if comp_whole:
                         self.ctx.whole += 1
+                    if comp_sofar:
+                        self.ctx.sofar = getattr(self.ctx, "sofar", 0) + 1
                     try:
                         cur = self._gen_elems(e, g, idx, it, cur, gen)
                     finally:
                         if comp_whole:
                             self.ctx.whole -= 1
+                        if comp_sofar:
+                            self.ctx.sofar -= 1
                     out_.extend(cur)
                     continue
                     for el in iter_elems(it):
@@ -1674,6 +1822,9 @@ class Frame:
                     keyterm, elt = elt.args
                 res = Coll(elt, keyterm)
                 res.kind = kind
+                if src_of_comp and getattr(src_of_comp[-1], "partial", False):
+                    res.partial = True          # a comprehension over some of the elements holds some of the results
+                    res.prefix = getattr(src_of_comp[-1], "prefix", None)
                 for k in list(q.env):
                     if k not in saved_env:
                         del q.env[k]
@@ -1726,7 +1877,7 @@ class Frame:
         for q, ts in self.seq(exprs, p):
             pos: List[Term] = []
             for a, t in zip(e.args, ts):
-                if isinstance(a, ast.Starred) and isinstance(t, Seq) and t.items and not any(isinstance(i, Sym) and i.head == "star" for i in t.items):
+                if isinstance(a, ast.Starred) and isinstance(t, Seq) and getattr(t, "kind", "") != "gen" and not any(isinstance(i, Sym) and i.head == "star" for i in t.items):
                     pos.extend(t.items)     # *args of a known tuple: the arguments themselves
                 else:
                     pos.append(Sym("star", (t,)) if isinstance(a, ast.Starred) else t)
@@ -1850,7 +2001,14 @@ class Frame:
         if isinstance(callee, Bound):
             name = callee.name
             if name == "values" and not pos:
-                return [(p, callee.target)]
+                tv = callee.target
+                if isinstance(tv, Child) and getattr(tv, "mapping", False):
+                    tv2 = Child(tv.path)
+                    for a_ in ("kind", "index", "args"):
+                        if hasattr(tv, a_):
+                            setattr(tv2, a_, getattr(tv, a_))
+                    tv = tv2         # the values view: iterating it yields the elements, not the keys
+                return [(p, tv)]
             if name == "items" and not pos:
                 return [(p, Sym("call:items", (callee.target,)))]
             if name in XOPS:
@@ -1900,6 +2058,10 @@ class Frame:
                 for q, bt in self.call_external(Sym("name", text="getattr"), [pos[0], callee.args[0]], {}, p, node):
                     out.extend(self.call_term(bt, margs, mkw, q, node) if q.status == "live" else [(q, Opaque("dead"))])
                 return out
+            if callee.head == "partial" and callee.args:
+                pre_pos = [a for a in callee.args[1:] if not (isinstance(a, Sym) and a.head.startswith("kw:"))]
+                pre_kw = {a.head[3:]: a.args[0] for a in callee.args[1:] if isinstance(a, Sym) and a.head.startswith("kw:")}
+                return self.call_term(callee.args[0], pre_pos + list(pos), {**pre_kw, **kw}, p, node)
             if callee.head == "attrgetter" and len(pos) == 1 and not kw and len(callee.args) == 1:
                 return self.call_external(Sym("name", text="getattr"), [pos[0], callee.args[0]], {}, p, node)
             return self.call_external(callee, pos, kw, p, node)
@@ -1996,6 +2158,12 @@ class Frame:
         r_ = self.higher_order(name, short, pos, kw, p, node)
         if r_ is not None:
             return r_
+        if name == "dict" and not kw and len(pos) == 1 and isinstance(pos[0], Sym) and pos[0].head == "call:zip" and len(pos[0].args) == 2:
+            ks, vs = iter_elems(pos[0].args[0]), iter_elems(pos[0].args[1])
+            if len(ks) == 1 and len(vs) == 1:
+                d_ = Coll(vs[0], ks[0])
+                d_.kind = "dict"
+                return [(p, d_)]
         if name == "dict" and kw and "**" not in kw and len(pos) <= 1:
             base = ()
             if pos:
@@ -2013,6 +2181,9 @@ class Frame:
                 f0 = pos[0]
                 nf = Fn(f0.kind, f0.owner, f0.node, {**f0.bound, **{k: v for k, v in kw.items() if k != "**"}}, f0.frame, f0.pos + tuple(pos[1:]))
                 return [(p, nf)]
+            if pos and isinstance(pos[0], Sym) and pos[0].head in ("ext", "name", "class", "partial") and "**" not in kw:
+                # partial(f, *a, **k) of a function defined elsewhere: calling it calls f with the arguments joined
+                return [(p, Sym("partial", (pos[0],) + tuple(pos[1:]) + tuple(Sym("kw:" + k, (v,)) for k, v in kw.items())))]
         if short in ("isinstance", "callable", "hasattr", "len", "str", "repr", "bool", "id", "type", "dir", "print"):
             return [(p, Sym("call:" + short, tuple(pos)))]
         if callee.args and not callee.text:
@@ -2020,6 +2191,12 @@ class Frame:
             kws = tuple(Sym("kw:" + k, (v,)) for k, v in sorted(kw.items()))
             self.ev(p, "call", text=name, target=callee, args=tuple(pos) + kws, line=line)
             return [(p, Sym("callres", (callee,) + tuple(pos) + kws))]
+        if kw and name.startswith("confectioner.") and "**" not in kw:
+            # keyword arguments of the library's own dependency are put in their positional places (signatures read from its source)
+            sig = _confectioner_signature(short)
+            if sig is not None and all(k in sig for k in kw) and set(sig[len(pos):len(pos) + len(kw)]) == set(kw):
+                pos = list(pos) + [kw[k] for k in sig[len(pos):len(pos) + len(kw)]]
+                kw = {}
         self.ev(p, "call", text=name, args=tuple(pos) + tuple(Sym("kw:" + k, (v,)) for k, v in kw.items()), line=line)
         return [(p, Sym("call:" + name, tuple(pos) + tuple(Sym("kw:" + k, (v,)) for k, v in sorted(kw.items()))))]
 
@@ -2100,7 +2277,8 @@ class Frame:
             return None
         if kw:
             return None
-        if short in ("map", "starmap", "filter", "reduce") and pos and not (isinstance(pos[0], (Fn, Bound, Const)) or (isinstance(pos[0], Sym) and pos[0].head in ("methodcaller", "attrgetter", "ext", "name", "class"))):
+        if short in ("map", "starmap", "filter", "reduce") and pos and not (isinstance(pos[0], (Fn, Bound, Const)) or (isinstance(pos[0], Sym) and (
+                pos[0].head in ("methodcaller", "attrgetter", "ext", "name", "class", "partial") or (pos[0].head.startswith("attr:") and pos[0].args and isinstance(pos[0].args[0], Const))))):
             return None         # the function applied is itself unknown: nothing to unfold
         if short == "map" and mod in ("", "builtins") and len(pos) == 2:
             return self.synth_expr("(f(x) for x in xs)", {"f": pos[0], "xs": pos[1]}, p, node)
@@ -2125,6 +2303,15 @@ class Frame:
                 return cur
             init = pos[2] if len(pos) == 3 else Sym("first", (xs,))
             return self.synth_block("acc = init\nfor _s_x in xs:\n    acc = f(acc, _s_x)\n", {"f": f, "xs": xs, "init": init}, "acc", p, node)
+        if name == "itertools.islice" and len(pos) == 2 and isinstance(pos[0], (Coll, Child)):
+            src = pos[0]
+            t2 = Coll(src.elem, src.keyterm) if isinstance(src, Coll) else Child(src.path)
+            for a_ in ("kind", "index", "mapping"):
+                if hasattr(src, a_):
+                    setattr(t2, a_, getattr(src, a_))
+            t2.partial = True          # the first n elements
+            t2.prefix = pos[1]
+            return [(p, t2)]
         if mod == "itertools.chain" and short == "from_iterable" and len(pos) == 1:
             return self.synth_expr("(y for x in xs for y in x)", {"xs": pos[0]}, p, node)
         if name == "itertools.chain" and pos:
@@ -2168,7 +2355,7 @@ class Frame:
             seen_terms.append(tkey)
             outer_objs.append(target)
             try:
-                res_ = self.inline(owner.module, owner, fn, target, target.attrs,
+                res_ = self.inline(owner.module, target.cls, fn, target, target.attrs,
                                    self.bind_params(fn, True, pos, kw, owner.module), p, node,
                                    via=self.via + (target.cls.name,), prebound=True)
             finally:
@@ -2410,7 +2597,7 @@ class Frame:
             return [(p, new)]
         owner, fn = r
         bound = self.bind_params(fn, True, pos, kw, owner.module)
-        res = self.inline(owner.module, owner, fn, new, new.attrs, bound, p, node, via=self.via)
+        res = self.inline(owner.module, ci, fn, new, new.attrs, bound, p, node, via=self.via)
         ok = [(q, t) for q, t in res if q.status == "live"]
         bad = [(q, t) for q, t in res if q.status != "live"]
         if not ok:
@@ -2499,6 +2686,31 @@ def _never_mutated(repo: Repo, module: Module, name: str) -> bool:
             ok = False
     cache[k] = ok
     return ok
+
+
+_CONF_SIGS: Optional[Dict[str, List[str]]] = None
+
+
+def _confectioner_signature(fname: str) -> Optional[List[str]]:
+    """Positional parameter names of a top-level function of the confectioner package, read from its source (not imported)."""
+    global _CONF_SIGS
+    if _CONF_SIGS is None:
+        import glob
+        import os
+        _CONF_SIGS = {}
+        cands = glob.glob("/venv/lib/python3*/site-packages/confectioner/*.py")
+        for base in os.environ.get("LABREA_SITE", "").split(":"):
+            if base:
+                cands += glob.glob(os.path.join(base, "confectioner", "*.py"))
+        for path in cands:
+            try:
+                tree = ast.parse(open(path).read())
+            except (OSError, SyntaxError):
+                continue
+            for n in tree.body:
+                if isinstance(n, ast.FunctionDef):
+                    _CONF_SIGS.setdefault(n.name, [a.arg for a in n.args.posonlyargs + n.args.args])
+    return _CONF_SIGS.get(fname)
 
 
 def _only_reraises(h: ast.ExceptHandler) -> bool:
@@ -2607,6 +2819,8 @@ def iter_elems(it: Term) -> List[Term]:
     """Abstract element(s) of an iterable term."""
     if isinstance(it, Coll):
         return [it.elem]
+    if isinstance(it, Child) and getattr(it, "mapping", False) and not it.path.endswith("]"):
+        return [Sym("key", (it,))]
     if isinstance(it, Child):
         c = Child(it.path + "[*]")
         k = getattr(it, "kind", "other")
@@ -2624,12 +2838,34 @@ def iter_elems(it: Term) -> List[Term]:
         return iter_elems(it.args[0])
     if isinstance(it, Sym) and it.head in ("call:items", "call:values") and it.args:
         base = it.args[0]
-        els = iter_elems(base)
+        if isinstance(base, Child) and getattr(base, "mapping", False):
+            b2 = Child(base.path)
+            for a_ in ("kind", "index", "args"):
+                if hasattr(base, a_):
+                    setattr(b2, a_, getattr(base, a_))
+            els = iter_elems(b2)        # the values, not the keys
+        else:
+            els = iter_elems(base)
         if it.head == "call:items":
             return [Sym("item", (Sym("key", (base,)), el)) for el in els]
         return els
     if isinstance(it, Sym) and it.head == "dictkeys":
         return [Sym("key", it.args)]
+    if isinstance(it, Sym) and it.head == "call:enumerate" and it.args:
+        # (position, element) pairs of the underlying iterable; position counts from ``start``
+        pos_t: Term = Sym("position")
+        start = None
+        for a in it.args[1:]:
+            start = a.args[0] if isinstance(a, Sym) and a.head == "kw:start" and a.args else a
+        if start is not None and not (isinstance(start, Const) and start.v == 0):
+            pos_t = Sym("binop:Add", (pos_t, start))
+        return [Seq([pos_t, el]) for el in iter_elems(it.args[0])]
+    if isinstance(it, Sym) and it.head == "call:zip" and len(it.args) >= 2 and not any(isinstance(a, Sym) and a.head.startswith("kw:") for a in it.args):
+        cols = [iter_elems(a) for a in it.args]
+        if all(len(c) == 1 for c in cols):
+            return [Seq([c[0] for c in cols])]
+    if isinstance(it, Sym) and it.head in ("call:itertools.islice", "call:islice") and it.args:
+        return iter_elems(it.args[0])        # some of its elements (the caller marks the collection partial)
     return [Sym("elem", (it,))]
 
 
